@@ -14,7 +14,7 @@ THEOREMS = ["C31_refines", "C31_match_refines", "C31_compiles_iff_wf", "C31_impl
             "C31_sem_range_lower", "C31_leaf_attr_exists", "C31_leaf_attr_equals", "C31_leaf_attr_prefix",
             "C31_leaf_attr_wildcard", "C31_leaf_glob", "C31_leaf_attr_compare_int", "C31_leaf_attr_compare_float",
             "C31_leaf_attr_compare_string", "C31_leaf_zcmp", "C31_leaf_tag_exists", "C31_leaf_tag_equals",
-            "C31_leaf_tag_compare", "C31_exists_tags_never", "C31_exists_tags_refuted", "C31_tagcmp_key_refuted",
+            "C31_leaf_tag_compare", "C31_leaf_word_match", "C31_leaf_default_term", "C31_exists_tags_never", "C31_exists_tags_refuted", "C31_tagcmp_key_refuted",
             "C31_refines_nonvacuous"]
 IMPORTS = ("From Coq Require Import List ZArith NArith String.\n"
            "From VRL Require Import Base.Bytes Base.Value Base.Lit Model.DdNode Model.DdMatch Corr.C31.\n"
@@ -49,7 +49,37 @@ def par(q):
     return "(%s)" % q
 
 
+NUMB = [0, 1, 2, 5, 7, 10, -3, 100, 0.5, 1.5, 2.0, 5.0, 7.25, 10.0, -0.25, -3.0]
+
+
+def numtext(b):
+    return repr(b) if isinstance(b, float) else str(b)
+
+
+def numeric_case(rng):
+    """numeric comparisons / ranges on a facet whose value sits on or next to the bound (int vs float on both sides)"""
+    from vlib import ji, jf, jo
+    b = rng.choice(NUMB)
+    near = [b, b, float(b), int(b) if float(b).is_integer() else b, b + 1, b - 1, b + 0.5, b - 0.25]
+    v = rng.choice(near)
+    val = jf(v) if isinstance(v, float) else ji(v)
+    f, key = rng.choice([("@a", "a"), ("@n", "n")])
+    ev = jo([(key, val)])
+    op = rng.choice(ddlib.CMPOPS)
+    if rng.random() < 0.6:
+        return {"op": "match", "kind": "not", "ev": ev, "qs": ["%s:%s%s" % (f, op, numtext(b)),
+                                                               "NOT (%s:%s%s)" % (f, op, numtext(b))]}
+    b2 = rng.choice(NUMB)
+    incl = rng.random() < 0.5
+    br, lo, hi = ("[]", ">=", "<=") if incl else ("{}", ">", "<")
+    return {"op": "match", "kind": "range", "ev": ev,
+            "qs": ["%s:%s%s TO %s%s" % (f, br[0], numtext(b), numtext(b2), br[1]),
+                   "%s:%s%s" % (f, lo, numtext(b)), "%s:%s%s" % (f, hi, numtext(b2))]}
+
+
 def gen_case(rng):
+    if rng.random() < 0.15:
+        return numeric_case(rng)
     ev = event(rng)
     r = rng.random()
     d = rng.choice([0, 0, 1, 1, 2, 3])
